@@ -32,6 +32,23 @@ func main() {
 			}
 		}
 		fmt.Println(ans)
+	case "phases":
+		// markdown rows: | ID | phases (quick / thorough cases) | level |
+		for _, id := range fw.IDs() {
+			p := fw.Lookup(id)
+			row := ""
+			for i, ph := range p.Phases {
+				if i > 0 {
+					row += " · "
+				}
+				race := ""
+				if ph.Race {
+					race = ", -race"
+				}
+				row += fmt.Sprintf("%s %d / %d%s", ph.Name, ph.N(fw.Tier("quick")), ph.N(fw.Tier("thorough")), race)
+			}
+			fmt.Printf("| %s | %s | %s |\n", id, row, p.Level)
+		}
 	case "list":
 		for _, id := range fw.IDs() {
 			fmt.Println(id)
